@@ -1096,12 +1096,9 @@ impl TypeSpace {
                     }
                 }
 
-                if min.is_none() {
-                    min = Some(*imin);
-                }
-                if max.is_none() {
-                    max = Some(*imax);
-                }
+                // The format's range applies in addition to explicit bounds.
+                min = Some(min.map_or(*imin, |m| m.max(*imin)));
+                max = Some(max.map_or(*imax, |m| m.min(*imax)));
             }
         }
 
